@@ -148,30 +148,63 @@ def find_dirty_flag_memo(r: Resolver, ci: ClassInfo) -> List[MemoPattern]:
 
 
 def find_none_guard_memo(r: Resolver, ci: ClassInfo) -> List[MemoPattern]:
-    """if self.<cache> is None:  self.<cache>[, self.<cache2>] = <expr reading fields S>"""
+    """Two spellings of a None-guarded memo in a method M:
+         if self.<cache> is None:  self.<cache>[, ...] = <expr reading fields S>
+         if self.<cache> is not None: return ... ;  ... ; self.<cache>[, ...] = <expr reading fields S>
+    The source fields S are those read by the computing expression (through local variables)."""
     out = []
+
+    def none_test(t: ast.AST, me: str):
+        if isinstance(t, ast.Compare) and len(t.ops) == 1 and isinstance(t.comparators[0], ast.Constant) and t.comparators[0].value is None:
+            c0 = self_attr(t.left, me)
+            if c0 is not None and isinstance(t.ops[0], ast.Is):
+                return c0, True
+            if c0 is not None and isinstance(t.ops[0], ast.IsNot):
+                return c0, False
+        return None
+
+    def assigns_in(stmts, me: str, f: FuncInfo):
+        caches, srcs = [], set()
+        local_src: Dict[str, Set[str]] = {}
+        for s2 in stmts:
+            if isinstance(s2, ast.Assign):
+                reads = fields_read(s2.value, me)
+                for n in ast.walk(s2.value):
+                    if isinstance(n, ast.Name) and n.id in local_src:
+                        reads |= local_src[n.id]
+                hit = False
+                for t in s2.targets:
+                    for t1 in (t.elts if isinstance(t, (ast.Tuple, ast.List)) else [t]):
+                        a = self_attr(t1, me)
+                        if a is not None:
+                            caches.append(a)
+                            hit = True
+                        elif isinstance(t1, ast.Name):
+                            local_src[t1.id] = set(reads)
+                if hit:
+                    srcs |= reads
+        return caches, srcs
+
     for nm, f in ci.methods.items():
         me = self_name(f)
         if me is None or nm == "__init__":
             continue
-        for st in f.node.body:
-            if isinstance(st, ast.If) and isinstance(st.test, ast.Compare) and len(st.test.ops) == 1 and isinstance(st.test.ops[0], ast.Is) \
-                    and isinstance(st.test.comparators[0], ast.Constant) and st.test.comparators[0].value is None:
-                c0 = self_attr(st.test.left, me)
-                if c0 is None:
-                    continue
-                caches, srcs = [], set()
-                for s2 in st.body:
-                    if isinstance(s2, ast.Assign):
-                        for t in s2.targets:
-                            ts = t.elts if isinstance(t, (ast.Tuple, ast.List)) else [t]
-                            for t1 in ts:
-                                a = self_attr(t1, me)
-                                if a is not None:
-                                    caches.append(a)
-                        srcs |= fields_read(s2.value, me)
-                if c0 in caches and srcs:
-                    out.append(MemoPattern(ci, "none-guard", f, c0, caches, srcs - set(caches), st))
+        body = f.node.body
+        for i, st in enumerate(body):
+            if not isinstance(st, ast.If):
+                continue
+            nt = none_test(st.test, me)
+            if nt is None:
+                continue
+            c0, is_none = nt
+            if is_none and not st.orelse:
+                caches, srcs = assigns_in(st.body, me, f)
+            elif (not is_none) and st.body and isinstance(st.body[-1], ast.Return) and not st.orelse:
+                caches, srcs = assigns_in(body[i + 1:], me, f)
+            else:
+                continue
+            if c0 in caches and srcs - set(caches):
+                out.append(MemoPattern(ci, "none-guard", f, c0, caches, srcs - set(caches), st))
     return out
 
 
@@ -219,11 +252,13 @@ class _MemoFlow(Flow):
                         i = False
                     if sm["recomputes"]:
                         fr = True
+                    if sm["invalidates"]:
+                        i, fr = True, False
                     if sm["writes"]:
                         # callee may or may not write; when it writes, does it leave the cache invalid?
                         if not sm["sets_invalid"]:
                             nxt.append((w, i, fr))                      # path on which it did not write
-                        nxt.append((True, True if sm["sets_invalid_if_written"] else i, False))
+                        nxt.append((True, True if (sm["sets_invalid_if_written"] or sm["invalidates"]) else i, False))
                     else:
                         nxt.append((w, i, fr))
                 else:
@@ -280,7 +315,8 @@ def _memo_summaries(pat: MemoPattern, r: Resolver) -> Dict[str, dict]:
     ci = pat.cls
     methods = dict(ci.methods)
     methods.update({f"{k}.setter": v for k, v in ci.setters.items()})
-    summ = {nm: {"writes": False, "kills": False, "recomputes": False, "sets_invalid": False, "sets_invalid_if_written": True} for nm in ci.methods}
+    summ = {nm: {"writes": False, "kills": False, "recomputes": False, "sets_invalid": False, "sets_invalid_if_written": True, "invalidates": False}
+            for nm in ci.methods}
     for _ in range(6):
         changed = False
         for nm, f in ci.methods.items():
@@ -297,6 +333,8 @@ def _memo_summaries(pat: MemoPattern, r: Resolver) -> Dict[str, dict]:
                 "sets_invalid": bool(normal) and all(s[1] for s in normal if s[0]) and any(s[0] for s in normal)
                                 and all(s[0] for s in normal),
                 "sets_invalid_if_written": bool(normal) and all(s[1] for s in normal if s[0]),
+                # pure invalidator helper: every normal exit leaves the cache invalid, whatever it was on entry
+                "invalidates": bool(normal) and all(s[1] for s in normal),
             }
             if new != summ[nm]:
                 summ[nm] = new
@@ -324,10 +362,12 @@ def check_memo(ctx: CheckContext, r: Resolver, pat: MemoPattern, rule: str):
             continue
         if nm == "__init__":
             continue   # the cache is initialised here
+        public = not nm.startswith("_") or (nm.startswith("__") and nm.endswith("__")) or nm.endswith(".setter")
         fl = _MemoFlow(pat, f, me, summ)
         fl.run(f.node, frozenset([(False, False, False)]))
         for kind, node, S in fl.exits:
-            if kind == "raise" or not any(s[0] for s in S):
+            if kind == "raise" or not any(s[0] for s in S) or not public:
+                # private helpers are judged through the public methods that call them (method summaries)
                 continue
             ok = all(s[1] for s in S if s[0])
             where = f"line {node.lineno}" if node is not None else "end of function"
@@ -472,35 +512,103 @@ def check_who_member_map(ctx: CheckContext, r: Resolver, ci: ClassInfo, member_m
     return inserter
 
 
-def _store_guarded_by_clash_loop(f: FuncInfo, me: str, member_map: str, store: ast.stmt) -> Tuple[bool, str]:
-    """self.map[k] = v must be preceded, in the same block, by  while ... k in self.map ...: k = <new>  """
-    tgt = store.targets[0] if isinstance(store, ast.Assign) else store.target
-    if not isinstance(tgt, ast.Subscript) or not isinstance(tgt.slice, ast.Name):
-        return False, "key is not a plain variable checked against the map"
-    k = tgt.slice.id
-    body = f.node.body
-    if store not in body:
-        return False, "store is nested in a branch/loop rather than following the renaming loop"
-    i = body.index(store)
-    for st in reversed(body[:i]):
+def _fresh_key_methods(ci: ClassInfo, member_map: str) -> Set[str]:
+    """methods whose result is a key proven absent from the map:  while k in self.map: k = ... ; return k"""
+    out = set()
+    for nm, f in ci.methods.items():
+        me = self_name(f)
+        if me is None:
+            continue
+        probed = set()
+        for st in f.node.body:
+            if isinstance(st, ast.While) and not (isinstance(st.test, ast.BoolOp) and isinstance(st.test.op, ast.Or)):
+                for n in ast.walk(st.test):
+                    if isinstance(n, ast.Compare) and len(n.ops) == 1 and isinstance(n.ops[0], ast.In) and isinstance(n.left, ast.Name) \
+                            and self_attr(n.comparators[0], me) == member_map:
+                        if any(isinstance(s2, ast.Assign) and any(isinstance(t, ast.Name) and t.id == n.left.id for t in s2.targets) for s2 in st.body):
+                            probed.add(n.left.id)
+        rets = [n for n in body_nodes(f) if isinstance(n, ast.Return)]
+        if probed and rets and all(isinstance(rt.value, ast.Name) and rt.value.id in probed for rt in rets):
+            # the probed variable must not be rebound after the loop
+            out.add(nm)
+    return out
+
+
+class _KeyFlow(Flow):
+    """must-fact per key variable: 'unique' = proven absent from the map, or overwriting explicitly allowed by the flag parameter."""
+
+    def __init__(self, f: FuncInfo, me: str, member_map: str, fresh_methods: Set[str], flags: Set[str]):
+        self.f, self.me, self.map, self.fresh, self.flags = f, me, member_map, fresh_methods, flags
+        self.stores: List[Tuple[ast.stmt, bool, str]] = []
+
+    def copy(self, s):
+        return dict(s)
+
+    def join(self, a, b):
+        return {k: a.get(k, False) and b.get(k, False) for k in set(a) | set(b)}
+
+    def _probe(self, test: ast.AST) -> Optional[Tuple[str, bool]]:
+        """(key var, flagged?) if test is `k in self.map` or `flag and k in self.map`"""
+        parts = test.values if isinstance(test, ast.BoolOp) and isinstance(test.op, ast.And) else [test]
+        key, flagged, other = None, False, False
+        for p_ in parts:
+            if isinstance(p_, ast.Compare) and len(p_.ops) == 1 and isinstance(p_.ops[0], ast.In) and isinstance(p_.left, ast.Name) \
+                    and self_attr(p_.comparators[0], self.me) == self.map:
+                key = p_.left.id
+            elif isinstance(p_, ast.Name) and p_.id in self.flags:
+                flagged = True
+            else:
+                other = True
+        if key is None or other:
+            return None
+        return key, flagged
+
+    def stmt(self, st, s):
         if isinstance(st, ast.While):
-            probes = False
-            for n in ast.walk(st.test):
-                if isinstance(n, ast.Compare) and len(n.ops) == 1 and isinstance(n.ops[0], ast.In) and isinstance(n.left, ast.Name) \
-                        and n.left.id == k and self_attr(n.comparators[0], me) == member_map:
-                    probes = True
-            if isinstance(st.test, ast.BoolOp) and isinstance(st.test.op, ast.Or):
-                probes = False
-            reassigns = any(isinstance(s2, ast.Assign) and any(isinstance(t, ast.Name) and t.id == k for t in s2.targets) for s2 in st.body)
-            if probes and reassigns:
-                # nothing between loop and store may rebind k
-                j = body.index(st)
-                for mid in body[j + 1:i]:
-                    for n in ast.walk(mid):
-                        if isinstance(n, ast.Name) and n.id == k and isinstance(n.ctx, ast.Store):
-                            return False, f"'{k}' is rebound between the renaming loop and the store"
-                return True, ""
-        for n in ast.walk(st):
-            if isinstance(n, ast.Name) and n.id == k and isinstance(n.ctx, ast.Store) and not isinstance(st, ast.While):
-                pass
-    return False, f"no preceding `while {k} in self.{member_map}` renaming loop"
+            pr = self._probe(st.test)
+            if pr is not None and any(isinstance(s2, ast.Assign) and any(isinstance(t, ast.Name) and t.id == pr[0] for t in s2.targets) for s2 in st.body):
+                s = dict(s)
+                s[pr[0]] = True      # loop exits only when the key is absent (or the flag is off)
+                return s
+        if isinstance(st, ast.If) and isinstance(st.test, ast.Name) and st.test.id in self.flags:
+            t = self.block(st.body, dict(s))
+            f_ = dict(s)
+            for k in list(f_) + [n.id for n in ast.walk(st) if isinstance(n, ast.Name)]:
+                f_[k] = True         # overwrite prevention switched off by the caller: any key is acceptable
+            f_ = self.block(st.orelse, f_)
+            return self._j(t, f_)
+        return super().stmt(st, s)
+
+    def transfer(self, st, s):
+        if isinstance(st, (ast.FunctionDef, ast.AsyncFunctionDef, ast.ClassDef)):
+            return s
+        s = dict(s)
+        if isinstance(st, ast.Assign):
+            for t in st.targets:
+                if isinstance(t, ast.Subscript) and self_attr(t.value, self.me) == self.map:
+                    k = t.slice.id if isinstance(t.slice, ast.Name) else None
+                    ok = bool(k and s.get(k, False))
+                    self.stores.append((st, ok, k or ast.unparse(t.slice)))
+                if isinstance(t, ast.Name):
+                    v = st.value
+                    fresh = isinstance(v, ast.Call) and isinstance(v.func, ast.Attribute) and isinstance(v.func.value, ast.Name) \
+                        and v.func.value.id == self.me and v.func.attr in self.fresh
+                    s[t.id] = fresh
+        return s
+
+
+def _store_guarded_by_clash_loop(f: FuncInfo, me: str, member_map: str, store: ast.stmt) -> Tuple[bool, str]:
+    ci = f.cls
+    fresh = _fresh_key_methods(ci, member_map) if ci is not None else set()
+    flags = set()
+    for a in f.pos_params + f.kwonly_params:
+        d = f.default_of(a)
+        if isinstance(d, ast.Constant) and d.value is True:
+            flags.add(a)
+    fl = _KeyFlow(f, me, member_map, fresh, flags)
+    fl.run(f.node, {})
+    for st, ok, k in fl.stores:
+        if st is store:
+            return ok, ("" if ok else f"key '{k}' is not proven absent from self.{member_map} on every path "
+                                    f"(no `while {k} in self.{member_map}` renaming loop or unique-key helper precedes the store)")
+    return False, "store not reached by the analysis"
